@@ -104,7 +104,8 @@ def run_fifo(case, rng):
     # half of the common-reset cases: the consumer is stalled from before each reset assertion until 12 cycles of each clock
     # after its release. The unchanged crossing invents nothing then (the phantom is withdrawn), so there every invented token is
     # unlisted - this is what separates the listed finding from a read side that is not reset at all
-    quiet = kind == "cdc_rst" and rng.random() < 0.5
+    # (unbuffered only: with buffered=True the output register is itself a consumer that is ready inside the window)
+    quiet = kind == "cdc_rst" and not buffered and rng.random() < 0.6
     resets = []
     reset_windows = []                    # [assertion, release (b cycles), release (a cycles)]: held until both domains saw it
     a_at_b = {}                           # b cycle -> cycle count of domain a
